@@ -443,8 +443,11 @@ ExecFor(s, arr, n, i, loc, st0, fuel) ==
     ELSE LET st == Tick(st0) IN
          IF st.exc # "" THEN XR("norm", loc, st, Null)
          ELSE LET cur == st.heap[arr.r].v
-                  elem == IF i < Len(cur) THEN cur[i + 1] ELSE Null
-                  a1 == IF s.idx # "" THEN AssignVar(s.idx, IntV(i), loc, st) ELSE [loc |-> loc, st |-> st]
+                  \* the length was fixed when the loop started, the elements are read live: an array that shrank in the
+                  \* meantime yields null (a failed arrayGet, reported in debug mode)
+                  er == IF i < Len(cur) THEN EvR(cur[i + 1], st) ELSE Failed("arrayGet", Null, st)
+                  elem == er.v
+                  a1 == IF s.idx # "" THEN AssignVar(s.idx, IntV(i), loc, er.st) ELSE [loc |-> loc, st |-> er.st]
                   a2 == AssignVar(s.var, elem, a1.loc, a1.st)
                   r == ExecBlock(s.body, 1, a2.loc, a2.st, fuel)
               IN IF r.st.exc # "" THEN r
